@@ -50,4 +50,53 @@ def allOpsDone (st : Study) : Bool := st.sugOps.all (·.done)
 
 def noActiveEsOp (st : Study) : Bool := st.esOps.all (!·.active)
 
+/-! ### the documented error table (C01) -/
+
+/-- The error class the documentation promises for a call, as a function of the stored data and the
+    request alone (`none` = no error is promised by these rules).  This table is the property's
+    predicate: the check evaluates it on REAL snapshots and compares with the real response. -/
+def specError (db : DB) : Req → Option (Code × Via)
+  | .createStudy .. => none
+  | .listStudies _ => none
+  | .getStudy o s | .listTrials o s | .listOptimal o s | .deleteStudy o s | .setStudyState o s _ | .getOperation o s _ _ =>
+    if (findStudy db o s).isNone then some (.notFound, .raw) else none
+  | .createTrial o s _ | .suggest o s _ _ _ | .updateMetadata o s _ =>
+    match findStudy db o s with
+    | none => some (.notFound, .raw)
+    | some st => if st.immutable then some (.failedPrecondition, .handled) else none
+  | .getTrial o s id =>
+    match findStudy db o s with
+    | none => some (.notFound, .raw)
+    | some st => if (st.findTrial id).isNone then some (.notFound, .raw) else none
+  | .deleteTrial o s id =>
+    match findStudy db o s with
+    | none => some (.notFound, .raw)
+    | some st =>
+      if st.immutable then some (.failedPrecondition, .handled)
+      else if (st.findTrial id).isNone then some (.notFound, .raw) else none
+  | .complete o s id _ _ _ | .checkEarlyStop o s id _ =>
+    match findStudy db o s with
+    | none => some (.notFound, .raw)
+    | some st =>
+      if st.immutable then some (.failedPrecondition, .handled)
+      else match st.findTrial id with
+        | none => some (.notFound, .raw)
+        | some t => if !t.state.mutable then some (.failedPrecondition, .handled) else none
+  | .addMeasurement o s id _ =>
+    match findStudy db o s with
+    | none => some (.notFound, .raw)
+    | some st =>
+      if st.immutable then some (.failedPrecondition, .handled)
+      else match st.findTrial id with
+        | none => some (.notFound, .raw)
+        | some t => if t.state == .requested || t.state == .succeeded then some (.failedPrecondition, .handled) else none
+  | .stop o s id =>
+    match findStudy db o s with
+    | none => some (.notFound, .raw)
+    | some st =>
+      if st.immutable then some (.failedPrecondition, .handled)
+      else match st.findTrial id with
+        | none => some (.notFound, .raw)
+        | some t => if t.state == .requested || t.state == .infeasible then some (.failedPrecondition, .handled) else none
+
 end VizierModel.Svc
